@@ -35,9 +35,8 @@ class VPath:
     def exists(self, p):
         return p in self.vfs.files or p in self.vfs.dirs
 
-    @staticmethod
-    def expanduser(p):
-        return p.replace('~', HOME, 1) if p.startswith('~') else p
+    def expanduser(self, p):
+        return p.replace('~', self.vfs.home, 1) if p.startswith('~') else p
 
     @staticmethod
     def expandvars(p):
@@ -50,7 +49,8 @@ class VPath:
 
 
 class VOs:
-    def __init__(self, files, dirs, env):
+    def __init__(self, files, dirs, env, home=HOME):
+        self.home = home
         self.files = dict(files)
         self.dirs = set(dirs)
         self.environ = dict(env)
@@ -148,13 +148,15 @@ def store_value(kind, which, tag):
     return f'{scheme}:/nowhere/{which}-{tag}'
 
 
-def build_world(envmask, filemask, style, store, defaults_exist, old_sock):
+def build_world(envmask, filemask, style, store, defaults_exist, old_sock, home=HOME):
     files, dirs = {}, set()
     filevals = {}
-    for i, path in enumerate(CANDS):
+    cands = [home + '/.ndn/client.conf'] + CANDS[1:]
+    hv = '' if home == HOME else 'v'       # a second user's files and stores carry other values
+    for i, path in enumerate(cands):
         if filemask >> i & 1:
-            tag = f'f{i}'
-            vals = {'transport': f'tcp://file{i}.example:{7000 + i}', 'pib': store_value(store, 'pib', tag), 'tpm': store_value(store, 'tpm', tag)}
+            tag = f'f{i}' + (hv if i == 0 else '')
+            vals = {'transport': f'tcp://file{i}{hv if i == 0 else ""}.example:{7000 + i}', 'pib': store_value(store, 'pib', tag), 'tpm': store_value(store, 'tpm', tag)}
             text, present = render(style, vals)
             files[path] = text
             filevals[path] = present
@@ -165,8 +167,8 @@ def build_world(envmask, filemask, style, store, defaults_exist, old_sock):
         if envmask >> j & 1:
             env[f'NDN_CLIENT_{key.upper()}'] = envvals[key]
     # existing store locations
-    conf = next((p for p in CANDS if p in files), None)
-    for tag in ['env'] + [f'f{i}' for i in range(4)]:
+    conf = next((p for p in cands if p in files), None)
+    for tag in ['env', 'f0v'] + [f'f{i}' for i in range(4)]:
         for which in ('pib', 'tpm'):
             dirs.add(f'/data/{which}-{tag}')
             dirs.add(f'/data/{which}-{tag}/ndnsec-key-file')      # (a directory of that name inside a store location means nothing)
@@ -177,8 +179,9 @@ def build_world(envmask, filemask, style, store, defaults_exist, old_sock):
             if conf is not None:
                 dirs.add(posixpath.join(posixpath.dirname(conf), f'relc-{which}-{tag}'))
     if defaults_exist:
-        dirs.add(DEF_PIB)
-        dirs.add(DEF_TPM)
+        for h in (HOME, '/home/v'):             # every user has the default stores
+            dirs.add(h + '/.ndn')
+            dirs.add(h + '/.ndn/ndnsec-key-file')
     if old_sock == 'old-only':
         files['/run/nfd.sock'] = ''
     elif old_sock == 'both':
@@ -186,7 +189,7 @@ def build_world(envmask, filemask, style, store, defaults_exist, old_sock):
         files['/run/nfd/nfd.sock'] = ''
     elif old_sock == 'new-only':
         files['/run/nfd/nfd.sock'] = ''
-    return VOs(files, dirs, env), filevals, conf
+    return VOs(files, dirs, env, home), filevals, conf
 
 
 def reference(vos, filevals, conf):
@@ -208,7 +211,7 @@ def reference(vos, filevals, conf):
             out[key] = v
             continue
         scheme, _, loc = v.partition(':')
-        dflt = DEF_PIB if key == 'pib' else DEF_TPM
+        dflt = vos.home + ('/.ndn' if key == 'pib' else '/.ndn/ndnsec-key-file')
         if loc and vos.path.exists(loc):
             res = loc
         elif loc and conf is not None and vos.path.exists(posixpath.join(posixpath.dirname(conf), loc)):
@@ -221,15 +224,9 @@ def reference(vos, filevals, conf):
     return out
 
 
-def run_conf(world):
-    envmask, filemask, style, store, defaults_exist, old_sock = world
-    vos, filevals, conf = build_world(*world)
+def compare_conf(got, vos, filevals, conf, world, tag):
     viol = []
-    tag = f'store={store}|style={style}'
-    try:
-        got = with_vfs(vos, cc.read_client_conf)
-    except Exception as e:  # noqa
-        return [(f'C20|conf|raises:{type(e).__name__}|{tag}', f'read_client_conf raised {e!r} in world {world}')], None
+    store = world[3]
     want = reference(vos, filevals, conf)
     src = {k: ('env' if f'NDN_CLIENT_{k.upper()}' in vos.environ else ('file' if conf and k in filevals[conf] else 'default')) for k in want}
     if got.get('transport') != want['transport']:
@@ -243,6 +240,18 @@ def run_conf(world):
             viol.append((f'C20|conf|{key}-scheme|source={src[key]}', f'{key} = {g!r}, expected scheme {scheme!r} (from {src[key]}); world {world}'))
         elif loc is not None and gl != loc:
             viol.append((f'C20|conf|{key}-location|store={store}|source={src[key]}', f'{key} = {g!r}, expected location {loc!r}; world {world}'))
+    return viol, src, want
+
+
+def run_conf(world):
+    envmask, filemask, style, store, defaults_exist, old_sock = world[:6]
+    vos, filevals, conf = build_world(*world)
+    tag = f'store={store}|style={style}'
+    try:
+        got = with_vfs(vos, cc.read_client_conf)
+    except Exception as e:  # noqa
+        return [(f'C20|conf|raises:{type(e).__name__}|{tag}', f'read_client_conf raised {e!r} in world {world}')], None
+    viol, src, want = compare_conf(got, vos, filevals, conf, world, tag)
     # default_keychain opens what was resolved
     try:
         kc = with_vfs(vos, lambda: cc.default_keychain(got['pib'], got['tpm']))
@@ -255,6 +264,147 @@ def run_conf(world):
     except Exception as e:  # noqa
         viol.append((f'C20|conf|default_keychain-raises:{type(e).__name__}', f'{e!r} for {got}'))
     return viol, (src['transport'], src['pib'], src['tpm'])
+
+
+# -- histories: the configuration is resolved several times in one process while the environment, the files or the user change ----
+HIST_WORLDS = [
+    (0, 0, 'all', 'scheme-only', True, 'new-only'),              # nothing configured: platform defaults
+    (1, 0, 'all', 'scheme-only', True, 'new-only'),              # transport from the environment
+    (0, 1, 'all', 'absolute', True, 'new-only'),                 # the user's file
+    (7, 1, 'all', 'absolute', True, 'new-only'),                 # environment over the user's file
+    (0, 8, 'all', 'rel-conf', True, 'new-only'),                 # system-wide file, stores relative to it
+    (6, 1, 'one-key', 'absolute', True, 'new-only'),             # stores from the environment, transport from the file
+    (0, 1, 'all', 'absolute', True, 'new-only', '/home/v'),      # another user's file
+    (0, 0, 'all', 'scheme-only', True, 'new-only', '/home/v'),   # another user, nothing configured
+    (0, 9, 'no-transport', 'missing', True, 'old-only'),         # stores missing: default locations; old socket layout
+]
+ENTRY_POINTS = ['read', 'v2', 'v2-shared', 'v2-keychain', 'legacy']
+
+
+def face_want(uri):
+    from urllib.parse import urlsplit
+    u = urlsplit(uri)
+    if u.scheme == 'unix':
+        return ('unix', u.path)
+    return (u.scheme.rstrip('46'), u.hostname, u.port or 6363)
+
+
+def face_got(f):
+    kind = {UnixFace: 'unix', TcpFace: 'tcp', UdpFace: 'udp'}.get(type(f), type(f).__name__)
+    return (kind, f.path) if kind == 'unix' else (kind, getattr(f, 'host', None), getattr(f, 'port', None))
+
+
+def run_history(hist):
+    """hist: list of (world index, entry point).  Objects the application keeps between calls (the dictionaries it passes as
+    client_conf) live as long as the history.  Every step is judged against the reference for the world *of that step*."""
+    import ndn.appv2 as v2
+    import ndn.app as legacy
+    viol = []
+    shared = {'tpm': 'tpm-file:/data/tpm-arg'}                   # the application's own settings: no transport among them
+    shared_kc = {'transport': 'tcp://arg.example:6363'}
+    outs = []
+    for step, (wi, ep) in enumerate(hist):
+        world = HIST_WORLDS[wi]
+        vos, filevals, conf = build_world(*world)
+        vos.dirs.add('/data/tpm-arg')
+        want = reference(vos, filevals, conf)
+        tag = f'step={step + 1}|via={ep}'
+        try:
+            if ep == 'read':
+                got = with_vfs(vos, cc.read_client_conf)
+                v, _, _ = compare_conf(got, vos, filevals, conf, world, tag)
+                viol += [(f'C20|history|{tag}|' + sig.split('|', 1)[1], f'history {hist}: ' + what) for sig, what in v]
+                outs.append(sorted(got.items()))
+            elif ep in ('v2', 'v2-shared'):
+                app = with_vfs(vos, lambda: v2.NDNApp(client_conf=shared) if ep == 'v2-shared' else v2.NDNApp())
+                g, w = face_got(app.face), face_want(want['transport'])
+                outs.append(g)
+                if g != w:
+                    viol.append((f'C20|history|{tag}|face', f'history {hist}: the application built at step {step + 1} talks to {g}, the configuration in force '
+                                                             f'at that moment says {w} (world {world})'))
+            elif ep == 'v2-keychain':
+                kc = with_vfs(vos, lambda: v2.NDNApp.default_keychain(shared_kc))
+                g = (kc.args[0], kc.args[1].args[0])
+                outs.append(g)
+                for key, gv in (('pib', posixpath.dirname(g[0])), ('tpm', g[1])):
+                    if want[key][1] is not None and gv != want[key][1]:
+                        viol.append((f'C20|history|{tag}|{key}-location', f'history {hist}: default_keychain at step {step + 1} opened {gv!r} as {key}, the '
+                                                                          f'configuration in force says {want[key][1]!r} (world {world})'))
+            else:
+                app = with_vfs(vos, lambda: legacy.NDNApp())
+                g, w = face_got(app.face), face_want(want['transport'])
+                kc = app.keychain
+                gk = (posixpath.dirname(kc.args[0]), kc.args[1].args[0])
+                outs.append((g, gk))
+                if g != w:
+                    viol.append((f'C20|history|{tag}|face', f'history {hist}: the application built at step {step + 1} talks to {g}, expected {w} (world {world})'))
+                for key, gv in zip(('pib', 'tpm'), gk):
+                    if want[key][1] is not None and gv != want[key][1]:
+                        viol.append((f'C20|history|{tag}|{key}-location', f'history {hist}: the application built at step {step + 1} opened {gv!r} as {key}, '
+                                                                          f'expected {want[key][1]!r} (world {world})'))
+        except Exception as e:  # noqa
+            viol.append((f'C20|history|{tag}|raises:{type(e).__name__}', f'history {hist}: {e!r} (world {world})'))
+            outs.append(type(e).__name__)
+    return viol, outs
+
+
+def histories(tier):
+    steps = [(w, e) for w in range(len(HIST_WORLDS)) for e in ENTRY_POINTS]
+    for a in steps:
+        for b in steps:
+            yield [a, b]
+    small = [(w, e) for w in ((1, 2, 6) if tier == 'quick' else (0, 1, 2, 3, 6)) for e in (('read', 'v2-shared', 'legacy') if tier == 'quick' else ENTRY_POINTS)]
+    for a in small:
+        for b in small:
+            for c in small:
+                yield [a, b, c]
+
+
+# -- the real stores: which private-key store does a keychain opened through default_keychain use ---------------------------
+def run_real_stores(seq):
+    """seq: list of (pib index, tpm index): default_keychain on real directories, then one new identity each time; its private key
+    must land in the private-key store named in *that* call."""
+    import os
+    import shutil
+    import tempfile
+    from mc.seams import owned_random
+    viol = []
+    root = tempfile.mkdtemp(prefix='c20-', dir='/dev/shm' if os.path.isdir('/dev/shm') else None)
+    try:
+        pibs = [os.path.join(root, f'pib{i}') for i in range(2)]
+        tpms = [os.path.join(root, f'tpm{i}') for i in range(2)]
+        for d in pibs + tpms:
+            os.makedirs(d)
+        from ndn.security.keychain.keychain_sqlite3 import KeychainSqlite3
+        for i in range(2):
+            # each public store was created next to "its" private-key store; the application may still name another one
+            KeychainSqlite3.initialize(os.path.join(pibs[i], 'pib.db'), 'tpm-file', tpms[i])
+        outs = []
+        with owned_random(('c20', tuple(seq))):
+            for step, (pi, ti) in enumerate(seq):
+                before = [set(os.listdir(t)) for t in tpms]
+                try:
+                    kc = cc.default_keychain(f'pib-sqlite3:{pibs[pi]}', f'tpm-file:{tpms[ti]}')
+                    kc.touch_identity(f'/c20/id{step}')
+                    kc.shutdown() if hasattr(kc, 'shutdown') else None
+                except Exception as e:  # noqa
+                    viol.append((f'C20|real-stores|raises:{type(e).__name__}', f'sequence {seq}: step {step + 1} raised {e!r}'))
+                    break
+                grown = [len(set(os.listdir(t)) - b) for t, b in zip(tpms, before)]
+                outs.append(grown)
+                want = [1 if i == ti else 0 for i in range(2)]
+                if grown != want:
+                    viol.append((f'C20|real-stores|private-key-in-other-store|step={step + 1}', f'sequence {seq} of (public store, private-key store) pairs: the key created at '
+                                 f'step {step + 1} added {grown} files to the two private-key stores, expected {want}'))
+    finally:
+        shutil.rmtree(root, ignore_errors=True)
+    return viol, outs
+
+
+def real_store_sequences():
+    pairs = [(p, t) for p in range(2) for t in range(2)]
+    for n in (1, 2, 3):
+        yield from (list(x) for x in itertools.product(pairs, repeat=n))
 
 
 def conf_worlds():
@@ -310,12 +460,17 @@ def run_face(uri, want):
 def plan(tier, seed):
     n = sum(1 for _ in conf_worlds())
     units = [{'kind': 'conf', 'lo': lo, 'hi': min(n, lo + 2000)} for lo in range(0, n, 2000)] + [{'kind': 'face'}]
+    nh = sum(1 for _ in histories(tier))
+    units += [{'kind': 'hist', 'tier': tier, 'lo': lo, 'hi': min(nh, lo + 500)} for lo in range(0, nh, 500)]
+    units += [{'kind': 'real', 'lo': lo, 'hi': lo + 21} for lo in range(0, 84, 21)]
     return {
         'units': units,
         'rule': 'configuration = (env presence mask, candidate-file existence mask, content style, store-location kind, platform defaults exist, '
                 'socket layout); complete product; distinct by construction. Non-trivial = at least two sources (env / file / default) compete for '
                 'some setting, or a store location that is not used as given.',
-        'bounds': {'worlds': n, 'styles': STYLES, 'store_kinds': STORES, 'face_uris': len(FACE_URIS)},
+        'bounds': {'worlds': n, 'styles': STYLES, 'store_kinds': STORES, 'face_uris': len(FACE_URIS), 'histories': nh,
+                   'history_alphabet': f'{len(HIST_WORLDS)} worlds (two users) x {ENTRY_POINTS}: all pairs, all triples over a sub-menu',
+                   'real_store_sequences': 84},
         'assumptions': ['when neither the given nor the platform default store location exists the statement is silent: only the scheme is compared',
                         'Linux platform class'],
     }
@@ -338,6 +493,33 @@ def unit(arg):
                 acc.violation(sig, what, {'kind': 'conf', 'world': list(world)})
             if acc.evaluations % 500 == 1:
                 acc.sample({'world(env,files,style,store,defaults,sock)': list(world), 'sources(transport,pib,tpm)': src})
+    elif arg['kind'] == 'hist':
+        for hist in itertools.islice(histories(arg['tier']), arg['lo'], arg['hi']):
+            viol, outs = run_history(hist)
+            acc.evaluations += 1
+            acc.state_count += 1
+            acc.transitions += len(hist)
+            if len({w for w, _ in hist}) > 1:
+                acc.nontrivial += 1
+            acc.outcome('history|' + '>'.join(e for _, e in hist))
+            acc.observe([hist, outs, [v[0] for v in viol]])
+            for sig, what in viol:
+                acc.violation(sig, what, {'kind': 'hist', 'hist': hist})
+            if acc.evaluations % 250 == 1:
+                acc.sample({'history(world index, entry point)': hist, 'observed': outs})
+    elif arg['kind'] == 'real':
+        for seq in itertools.islice(real_store_sequences(), arg['lo'], arg['hi']):
+            viol, outs = run_real_stores(seq)
+            acc.evaluations += 1
+            acc.state_count += 1
+            acc.transitions += len(seq)
+            if len(set(seq)) > 1:
+                acc.nontrivial += 1
+            acc.outcome(f'real-stores|len={len(seq)}')
+            acc.observe([seq, outs, [v[0] for v in viol]])
+            for sig, what in viol:
+                acc.violation(sig, what, {'kind': 'real', 'seq': seq})
+        acc.sample({'real store sequence (pib, tpm)': [[0, 0], [0, 1]]})
     else:
         for uri, want in FACE_URIS:
             viol = run_face(uri, want)
@@ -355,6 +537,10 @@ def unit(arg):
 def replay(case):
     if case['kind'] == 'conf':
         viol, _ = run_conf(tuple(case['world']))
+    elif case['kind'] == 'hist':
+        viol, _ = run_history([tuple(x) for x in case['hist']])
+    elif case['kind'] == 'real':
+        viol, _ = run_real_stores([tuple(x) for x in case['seq']])
     else:
         want = dict(FACE_URIS)[case['uri']]
         viol = run_face(case['uri'], want)
